@@ -272,7 +272,7 @@ for (rule, _) in it: &self.rules
 {
                 let mut root_scope = root_scope(rule, Rc::new(each.path_value.clone()));
 
-                if let Status::FAIL = eval_rules_file(rule, &mut root_scope, Some(&each.name))? {
+                if Status::PASS != eval_rules_file(rule, &mut root_scope, Some(&each.name))? {
                     self.exit_code = FAILURE_STATUS_CODE;
                 }
 
